@@ -41,10 +41,13 @@ def main(tier):
     seen_fns = {}
     n_regions = 0
     visited = {}
-    for shp in shapes(tier):
+    for i_shp, shp in enumerate(shapes(tier)):
         nr, nt, nsc, dirbc = shp
         sk = "nr=%d ntheta=%d nsc=%d DirBC=%s" % shp
-        regs, notes, S = eff_runs.run_shape(prog, nr, nt, nsc, dirbc, give_flags=((False, False),) if tier == "quick" else ((False, False), (True, False), (False, True)))
+        # the give operators under the other cache-flag combinations: both caches off on every shape; the two mixed
+        # combinations on every fourth shape of the thorough family (they select between code the other two already run)
+        gf = ((False, False),) if (tier == "quick" or i_shp % 4) else ((False, False), (True, False), (False, True))
+        regs, notes, S = eff_runs.run_shape(prog, nr, nt, nsc, dirbc, give_flags=gf)
         for kind, o in notes:
             if kind == "oob":
                 ck.fail("R-C11-1", "out-of-range:%s" % o[0][0], o[0][3], "%s: access %s[%s] beyond length %s" % ((sk,) + o[0][:3]))
